@@ -96,4 +96,18 @@ PROPS = {
         ],
         "timeout": {"quick": 600, "thorough": 3000},
     },
+    "C16": {
+        "level": "proof",
+        "extract": ["Service"],
+        "rule": "random histories (8-32 operations each) of Add / Remove (live, already removed, unknown id) / remote call "
+                "/ remote terminate (own id, 0, wrong id) / subscribe (one connection per subscriber) on a real service "
+                "hosted by a real server, followed by state snapshots (invocation and OnTerminate counters per object "
+                "instance, subscribers told); exact comparison with the model's step; distinct = distinct op line within "
+                "the run; reset/bookkeeping lines are not counted as non-trivial",
+        "assumptions": [
+            "operations are issued sequentially (the concurrent part of the quantifier is covered by the model's atomic "
+            "actions being the code's critical sections, extracted in Service.lean, not by a concurrent run)",
+            "random object ids are an arbitrary choice among unused ids",
+        ],
+    },
 }
